@@ -80,6 +80,10 @@ def monitor(ctx, spec, out):
     n_finite_init = sum(1 for x in nonf[:n_inits] if x == "ok") + max(0, n_inits - len(nonf))
     sig = dict(optimizer=name)
     case = dict(spec=dunit.spec_full(spec), mask=nonf, n_inits=n_inits)
+    if out["exc"] is not None and gen.space_exhausted(spec, [st["pos"] for st in out["steps"] if st.get("pos") is not None]):
+        # not a consequence of non-finite scores: replacement=False and every point already evaluated (finding F-D17 of C03)
+        ctx.blocked.append(dict(optimizer=name, reason="SMBO with replacement=False exhausted the space (C03 finding F-D17)", exception=out["exc"][0]))
+        return
     if out["exc"] is not None:
         import re
         fr = re.findall(r'gradient_free_optimizers/([\w/]+)\.py", line \d+, in (\w+)', out["exc"][2])
